@@ -144,7 +144,7 @@ def selections():
 def gen_range_cases(c):
     rng = c.rng
     cases = []   # (delim byte, list, line)
-    maxlen = 7
+    maxlen = 7 if c.tier == "quick" else 9
     alpha = [ord("a"), ord("b"), 9]
     lines = [b""]
     for n in range(1, maxlen + 1):
@@ -255,6 +255,8 @@ def main(argv):
     if note:
         c.assumptions.append("translator: the shape of the anchored code changed (" + note[:300] + "); the tie of the model to the code rests on the correspondence run below")
         log("  note: " + note[:300])
+    if c.tier == "thorough":
+        coqchk(c)
     drv, dlog = build_driver("C10")
     impl = hx_bin("hx_fields")
     os.makedirs(SCRATCH, exist_ok=True)
@@ -356,6 +358,9 @@ def main(argv):
                 c.violation("individual-fields: IndividualFields(line %r, -f %s, -d %r) called back with %s; cut semantics give %s" % (l, s.decode(), bytes([d]), o, want),
                             {"op": "IndividualFields", "kind": "individual", "line_hex": hexs(l), "list": s.decode(), "delim": d, "impl": o, "expected": want})
 
+    if c.tier == "thorough":
+        asan_lines(c, "hx_fields", lines, "(exact-size heap copy of the line)")
+
     # ---------------- tool level: the key relation on line pairs
     pairs = gen_pairs(c)
     if rp_pair is not None:
@@ -406,7 +411,7 @@ def main(argv):
 
     shutil.rmtree(SCRATCH, ignore_errors=True)
     return c.finish(level="proof",
-                    rule="RangeFields: every line over {a,b,TAB} up to length 7 x the 31 selections over fields {1,2,3,4,5-} (quick: length 7 with a third of the selections), 15 further "
+                    rule="RangeFields: every line over {a,b,TAB} up to length 7 (thorough: 9) x the 31 selections over fields {1,2,3,4,5-} (quick: length 7 with a third of the selections), 15 further "
                          "lists on all lines up to length 5, random longer lines x random lists x 7 delimiters (incl. bytes >= 0x80); IndividualFields on a quarter of them; "
                          "ParseFields/DefragmentFields: every list of <= 3 ranges over field numbers <= 4, a malformed corpus (signs, blanks, 0, N-M-K, trailing/leading/double commas, "
                          "numbers around 2^32 and 2^64) and random strings; tools: dedupe -f / cache -k / shard -f on line pairs with identical / different selected fields, malformed lists. "
